@@ -16,6 +16,7 @@ RULE += " Session clocks are built with UTC spelled as pytz.UTC / datetime.timez
 RULE += ' For ranges checked with re-use, copy.copy and copy.deepcopy of the engine must emit the same events.'
 RULE += ' A fifth of the random ranges start between 1950 and 1969.'
 RULE += ' Engines checked with re-use get their pre/post-market flags switched after the first pass; the next pass follows the new flags.'
+RULE += ' Round 12: every other shard runs with logging enabled down to DEBUG and event printing on.'
 ASSUMPTIONS = ['UTC timestamps; end time-of-day not before the start\'s (the quantifier)']
 EXHAUSTIVE = {'thorough': 'all (start date in 2019-12-01..2024-03-31) x (start 00:00|14:30) x (length 0..45 d) x 4 flag combinations'}
 
